@@ -5,7 +5,7 @@ from symdc.zpath import I, R, B, assume, flag
 from symdc.sqlmodel import Cell, CNULL, NULL, INT, REAL, TEXT
 from symdc.state import same_cols, CACHE_COLS
 from symdc.spec import unchanged
-from obligations.cache_ops import Ctx, zv, SHORT
+from obligations.cache_ops import Ctx, zv, SHORT, directive_aware
 
 
 class Boom(Exception):
@@ -41,6 +41,7 @@ def do_op(c, kind, k, v):
     raise ValueError(kind)
 
 
+@directive_aware
 def ob_block(w, P):
     """a block of 1-2 operations that raises after a symbolic number of them (or completes)"""
     x = Ctx(w, P, min_file_size=0 if ('setf' in P['ops'] or P.get('prelude')) else 2 ** 15)
@@ -60,9 +61,8 @@ def ob_block(w, P):
     keys = [x.key('key%d' % i) for i in range(len(ops))]
     vals = [x.s.v_int('val%d' % i, -2 ** 40, 2 ** 40) for i in range(len(ops))]
     raise_at = x.s.v_int('raise_at', 0, len(ops))  # == len(ops): the block completes
-    x.begin()
-    raised = False
-    try:
+
+    def body():
         with c.transact():
             for i, kind in enumerate(ops):
                 if raise_at == i:
@@ -72,6 +72,34 @@ def ob_block(w, P):
                         do_op(c, kind, keys[i][0], vals[i])
                 else:
                     do_op(c, kind, keys[i][0], vals[i])
+    if P.get('crash'):
+        # the process is killed at a symbolic event inside the block: all-or-nothing for the whole block, every committed
+        # row keeps its value file (Ctx.call raises the kill outcome)
+        from obligations.cache_ops import Outcome
+        for rv in x.s.rowvars:  # delete/pop leave an expired row alone: expiry is not the subject here
+            assume(rv['expire_null'].z)
+        assume(sx.zB(Not(And(EqI(keys[0][1].cls, keys[1][1].cls), EqR(keys[0][1].num, keys[1][1].num)))))
+        try:
+            x.call(body, expect=(Boom, BoomBase))
+        except Outcome as o:
+            cl = list(o.clauses)
+            done = []
+            for i, kind in enumerate(ops):
+                it = x.T1.lookup(keys[i][1], keys[i][2])
+                if kind == 'set':
+                    done.append(And(it.present, EqI(it.c['value'].cls, INT), EqR(it.c['value'].num, zv(vals[i]))))
+                elif kind == 'setf':
+                    done.append(And(it.present, EqR(it.c['mode'].num, 2)))
+                elif kind in ('delete', 'pop'):
+                    done.append(Not(it.present))
+            cl.append(('C07,C06', 'a block interrupted by a kill took effect completely or not at all',
+                       Or(And(unchanged(x.T0, x.T1), spec.same_count(x.T0, x.T1)), AndL(done))))
+            raise Outcome(cl)
+        return x.result()
+    x.begin()
+    raised = False
+    try:
+        body()
     except (Boom, BoomBase):
         raised = True
     x.end()
@@ -155,6 +183,130 @@ def ob_block_isolation(w, P):
     return x.result()
 
 
+# ------------------------------------------------------------------ FanoutCache.transact: one block over every shard
+
+FPOOL = [0, 1, 2, 3]
+
+
+@directive_aware
+def ob_block_fanout(w, P):
+    """`with fanout.transact():` on a real 2-shard FanoutCache (model databases): the block holds one transaction on
+    every shard; it raises after a symbolic number of writes (keys chosen symbolically from a pool that spans both
+    shards) or completes.  An aborted block leaves every shard unchanged; a completed one leaves all its writes;
+    meanwhile (intrude=True) another FanoutCache on the directory cannot write to any shard: its set reports
+    False and has no effect."""
+    from symdc.state import Table, Nullable
+    L = w.L
+    shards = P.get('shards', 2)
+    w.clock_fn = lambda: 0.0
+    try:
+        fc = L.fanout.FanoutCache(w.dir, shards=shards, cull_limit=0, eviction_policy='none')
+        for sh in fc._shards:
+            sh._con
+        other = None
+        if P.get('intrude'):
+            other = L.fanout.FanoutCache(w.dir, shards=shards, cull_limit=0, eviction_policy='none')
+            for sh in other._shards:
+                sh._con
+    finally:
+        w.clock_fn = None
+    per = {i: [] for i in range(shards)}
+    for j, k in enumerate(FPOOL):
+        si = (k % 0xFFFFFFFF) % shards
+        alive = w.bool('e%d.present' % j)
+        val = w.int('e%d.value' % j, -2 ** 40, 2 ** 40)
+        per[si].append(dict(rowid=len(per[si]) + 1, key=k, raw=1, store_time=0, access_time=0, access_count=0, expire_time=Nullable(True, 0), tag=None, size=0, mode=1,
+                            filename=None, value=val, _alive=alive, _tb=0))
+    for si, specs in per.items():
+        w.install_rows(fc._shards[si], specs)
+
+    def snap():
+        items, settings = [], None
+        for sh in fc._shards:
+            T = w.snapshot(sh)
+            items.extend(T.items)
+            settings = T.settings
+        return Table(items, settings)
+    T0 = snap()
+    nops = P.get('nops', 2)
+    keys = [w.int('key%d' % i, 0, len(FPOOL) - 1) for i in range(nops)]
+    vals = [w.int('val%d' % i, -2 ** 40, 2 ** 40) for i in range(nops)]
+    raise_at = w.int('raise_at', 0, nops)
+    res = {}
+    if other is not None:
+        ik = w.int('ikey', 0, len(FPOOL) - 1)
+
+        def intruder():
+            w.tid, old = 2, w.tid
+            try:
+                res['ret'] = other.set(ik, 77)
+                res['T'] = snap()
+            finally:
+                w.tid = old
+        w.interfere_at = w.int('at', 0, P.get('max_events', 16))
+        w.interfere_hook = intruder
+    w.start_events()
+    raised = False
+    try:
+        with fc.transact():
+            res['T_in'] = True
+            for i in range(nops):
+                if raise_at == i:
+                    raise Boom()
+                fc.set(keys[i], vals[i])
+    except Boom:
+        raised = True
+    w.stop_events()
+    T1 = snap()
+    cl = []
+    log = [(i, d) for (i, kind, d) in w.log if kind == 'sql']
+    begins = [i for i, d in log if d.startswith('BEGIN')]
+    ends = [i for i, d in log if d.startswith(('COMMIT', 'ROLLBACK'))]
+    expected = {}
+    if not raised:
+        for i in range(nops):
+            expected[int(keys[i])] = vals[i]
+
+    def state_as_expected(expected):
+        conj = []
+        for it in T0.items:
+            k = it.c['key'].num
+            k = int(str(sx.simp(k))) if sx.isz(k) else int(k)
+            p = T1.lookup(it.c['key'], it.c['raw'])
+            if k in expected:
+                conj.append(And(p.present, EqI(p.c['value'].cls, INT), EqR(p.c['value'].num, zv(expected[k]))))
+            else:
+                conj.append(Implies(it.present, And(p.present, same_cols(p, it, CACHE_COLS))))
+                conj.append(Implies(Not(it.present), Not(p.present)))
+        return AndL(conj)
+    if other is not None and 'ret' in res:
+        flag('intruded')
+        i_at = w.interfered_at[0]
+        inside = len(begins) == shards and begins[-1] < i_at and (not ends or i_at <= ends[0])
+        if inside:
+            flag('intruded_inside')
+            cl.append(('C06,C14', "while the block holds every shard another client's write is refused (reported False)", res['ret'] is False))
+        if res['ret'] is True:
+            # admitted outside the lock window: a legitimate effect, unless the block wrote the same key (order decides)
+            if int(ik) in expected:
+                expected = None
+            else:
+                expected[int(ik)] = 77
+    final_ok = True if expected is None else state_as_expected(expected)
+    cl.append(('C06', 'the block holds exactly one transaction per shard', len(begins) == shards and len(ends) == shards))
+    cl.append(('C06', 'every shard transaction is closed and unowned when the block exits', all(sh._txn_id is None for sh in fc._shards)))
+    if raised:
+        flag('block_raised')
+        cl.append(('C06', 'an aborted sharded block rolls every shard back', all(d.startswith('ROLLBACK') for i, d in log if i in ends)))
+        cl.append(('C06,C08', 'an aborted sharded block leaves every shard exactly as before', final_ok))
+    else:
+        flag('block_committed')
+        cl.append(('C06,C08', 'a completed sharded block leaves all of its writes and nothing else changed', final_ok))
+    cl.append(('C06,C08', 'counters match in every shard', AndL(state.inv_table(w.snapshot(sh)) for sh in fc._shards)))
+    flag('nontrivial')
+    return cl
+
+
 def jobs(tier):
     out = []
 
@@ -176,6 +328,10 @@ def jobs(tier):
         add('ob_block', 'C06,C08', weight=N * 2, must=['block_raised', 'prelude'], N=N, ops='delete', prelude=True, no_cull=True)
         add('ob_block', 'C06,C08', weight=N * 2, must=['block_raised', 'prelude'], N=N, ops='set+pop', prelude=True, no_cull=True)
         add('ob_block', 'C06,C08', weight=N * 2, must=['block_raised'], N=N, ops='setf', exc='base', nested=True, no_cull=True)
+        for ops in ('setf+delete', 'pop+setf', 'set+set', 'delete+set'):
+            add('ob_block', 'C07,C06', weight=N * 30, must=['crashed'], N=N, ops=ops, crash=True, no_cull=True)
         for who in ('handle', 'thread'):
             add('ob_block_isolation', 'C06,C05', weight=N * 2, must=['intruded_inside'], N=N, who=who)
+    add('ob_block_fanout', 'C06,C08', weight=8, must=['block_raised', 'block_committed'], nops=2)
+    add('ob_block_fanout', 'C06,C14', weight=20, must=['intruded_inside'], nops=1, intrude=True)
     return out
